@@ -3,6 +3,7 @@ import hashlib
 import json
 import multiprocessing
 import os
+import signal
 import subprocess
 import sys
 import time
@@ -102,7 +103,7 @@ class Result(object):
             distinct_nontrivial=len(self.nontrivial),
             rule=("one case = one feasible path of one shape (a shape fixes lengths/flags; all byte "
                   "contents and data-derived integers are solver variables); a shape is non-trivial "
-                  "when at least one of its obligations needed a solver query (was not closed by "
+                  "when it needed at least one solver query (branch feasibility or obligation not closed by "
                   "term simplification alone); distinct = distinct shape descriptors"),
             samples=self.samples[:8],
             obligations=self.stats['obligations'],
@@ -202,6 +203,12 @@ def _worker(job):
     st = core.new_stats()
     out = dict(harness=hname, shape=shape, status="ok", stats=st)
     t0 = time.time()
+    budget = int(getattr(h, 'budget_s', 0) or int(os.environ.get("VERIF_SHAPE_BUDGET_S", "240")))
+
+    def _alarm(signum, frame):
+        raise core.Inconclusive("shape time budget of %d s exceeded" % budget)
+    signal.signal(signal.SIGALRM, _alarm)
+    signal.alarm(budget)
     try:
         def body(c):
             env = SymEnv(c)
@@ -225,6 +232,8 @@ def _worker(job):
     except Exception as e:
         out['status'] = "error"
         out['detail'] = "%s: %s\n%s" % (type(e).__name__, e, traceback.format_exc()[-1500:])
+    finally:
+        signal.alarm(0)
     out['wall'] = time.time() - t0
     out['sources'] = dict(rewrite.loaded_sources)
     out['stubs'] = sorted(natives.stub_uses)
@@ -251,7 +260,7 @@ def fold(res, out):
         res.functions[m] = dict(file=p, sha256=h)
     res.stubs.update(out.get('stubs', []))
     st = out['stats']
-    if st['obligations'] > st['trivial']:
+    if st['queries'] > 0:
         res.nontrivial.add(hname + ":" + json.dumps(shape, sort_keys=True))
     if len(res.samples) < 8 and out['status'] == 'ok':
         res.samples.append(dict(harness=hname, shape=shape, paths=st['paths'],
